@@ -295,6 +295,15 @@ def steer_panel(tier):
         add(2, box, {"family": "plateau", "min": [0.4, 0.6], "q": 0.05}, options={"max_fun_evals": 60}, tags=["gp_nonfinite", "plateau"])
         add(2, box, {"family": "const", "c": 2.0}, noise={"mode": "declared", "sigma": 1.0},
             options={"max_fun_evals": 70, "noise_final_samples": 2}, tags=["gp_nonfinite", "declared"])
+        add(2, box, {"family": "const", "c": 2.0}, noise={"mode": "specified", "sigma": 0.5, "sd_kind": "const"},
+            options={"max_fun_evals": 70, "noise_final_samples": 2}, tags=["gp_nonfinite", "specified"])
+        add(2, box, {"family": "const", "c": 2.0}, noise={"mode": "auto", "sigma": 0.5},
+            options={"max_fun_evals": 70, "noise_final_samples": 2}, tags=["gp_nonfinite", "auto"])
+        # reported SD but an exactly constant value (declared stochastic, no actual noise)
+        add(2, box, {"family": "const", "c": 2.0}, noise={"mode": "specified", "sigma": 0.5, "sd_kind": "const", "actual": 0.0},
+            options={"max_fun_evals": 70, "noise_final_samples": 2}, tags=["gp_nonfinite", "specified", "zero_actual_noise"])
+        add(2, box, {"family": "const", "c": 2.0}, noise={"mode": "declared", "sigma": 0.5, "actual": 0.0},
+            options={"max_fun_evals": 70, "noise_final_samples": 2}, tags=["gp_nonfinite", "declared", "zero_actual_noise"])
         # poll with few / no candidates: tiny tight box, incumbent in a corner
         g = {"lb": [0, 0], "ub": [1, 1], "plb": [0, 0], "pub": [1, 1], "x0": [0.999, 0.999]}
         add(2, g, {"family": "linear", "w": [-1.0, -1.0]}, options={"max_fun_evals": 60}, tags=["corner"])
